@@ -1442,6 +1442,7 @@ package rux
 //@     && (forall a string :: (a in RESTFulActions) == isAction(a))
 //@     && row1("Index", "GET") && row1("Create", "GET") && row1("Store", "POST") && row1("Show", "GET") && row1("Edit", "GET") && row1("Delete", "DELETE")
 //@     && len(RESTFulActions["Update"]) == 2 && RESTFulActions["Update"][0] == "PUT" && RESTFulActions["Update"][1] == "PATCH"
+//@     && (forall a string :: isAction(a) ==> len(RESTFulActions[a]) > 0 && allMethods(RESTFulActions[a]))
 //@ spec mref(cv reflect.Value, a string) ref = uf("rv.method", ref, rvid(cv), a)
 //@ spec impl(cv reflect.Value, a string) bool = uf("rv.valid", bool, mref(cv, a)) && hastype(uf("rv.iface", any, mref(cv, a)), func(*Context))
 //@ spec shape(a string) string = (a == "Index" || a == "Store") ? "/" : (a == "Create" ? "/create/" : (a == "Edit" ? "{id}/edit/" : "{id}/"))
@@ -1450,7 +1451,7 @@ package rux
 //@ spec actOf(res string, n string) string = n == nm(res, "Index") ? "Index" : (n == nm(res, "Create") ? "Create" : (n == nm(res, "Store") ? "Store"
 //@     : (n == nm(res, "Show") ? "Show" : (n == nm(res, "Edit") ? "Edit" : (n == nm(res, "Update") ? "Update" : (n == nm(res, "Delete") ? "Delete" : ""))))))
 //@ spec namesOK(res string) bool = (forall a1 string, a2 string :: isAction(a1) && isAction(a2) && a1 != a2 ==> nm(res, a1) != nm(res, a2))
-//@     && (forall a string :: isAction(a) ==> nm(res, a) != "")
+//@     && (forall a string :: isAction(a) ==> nm(res, a) != "" && actOf(res, nm(res, a)) == a)
 //@ spec usesOK(r *Router, hf map[string][]HandlerFunc, rt *Route, a string) bool =
 //@     (a in hf ==> len(rt.handlers) == len(r.currentGroupHandlers) + len(hf[a])
 //@         && (forall i int :: 0 <= i && i < len(hf[a]) ==> rt.handlers[len(r.currentGroupHandlers) + i] == hf[a][i]))
